@@ -1,10 +1,10 @@
 package main
 
 import (
-	stdjson "encoding/json"
 	"bytes"
 	"crypto/sha256"
 	"encoding/hex"
+	stdjson "encoding/json"
 	"fmt"
 	"os"
 	"os/exec"
